@@ -8,6 +8,8 @@ import json, os, re, shutil, subprocess, sys, tempfile, time, atexit, glob
 
 VERIF = os.path.dirname(os.path.dirname(os.path.abspath(__file__)))
 REPO = os.environ.get("VERIF_REPO", "/repo")
+# evidence and replay files describe /repo itself; a run against another tree (bin/mutants) writes them elsewhere
+OUTDIR = os.environ.get("VERIF_OUT") or (VERIF if REPO == "/repo" else os.path.join("/tmp", "verif-out-" + str(os.getuid())))
 SPEC = os.path.join(VERIF, "spec")
 HARNESS = os.path.join(VERIF, "harness")
 NCPU = os.cpu_count() or 4
@@ -268,9 +270,9 @@ class Ctx:
                     print("KNOWN-FINDING: property=%s %s [%s]" % (self.prop, hit["what"], hit["id"]))
             else:
                 fresh.append((what, rep))
-        os.makedirs(os.path.join(VERIF, "replays"), exist_ok=True)
+        os.makedirs(os.path.join(OUTDIR, "replays"), exist_ok=True)
         for n, (what, rep) in enumerate(fresh[:20], 1):
-            path = os.path.join(VERIF, "replays", "%s-%d.json" % (self.prop, n))
+            path = os.path.join(OUTDIR, "replays", "%s-%d.json" % (self.prop, n))
             with open(path, "w") as f:
                 json.dump({"property": self.prop, "tier": self.tier, "seed": self.seed, "what": what, "case": rep}, f, indent=1)
             print("VIOLATION property=%s replay=%s" % (self.prop, path))
@@ -286,8 +288,8 @@ class Ctx:
             "coverage": coverage, "assumptions": assumptions, "wall_s": round(time.time() - self.t0, 2),
             "violations": len(fresh), "known_findings_observed": self.known_printed,
         }
-        os.makedirs(os.path.join(VERIF, "evidence"), exist_ok=True)
-        with open(os.path.join(VERIF, "evidence", "%s.json" % self.prop), "w") as f:
+        os.makedirs(os.path.join(OUTDIR, "evidence"), exist_ok=True)
+        with open(os.path.join(OUTDIR, "evidence", "%s.json" % self.prop), "w") as f:
             json.dump(ev, f, indent=1, sort_keys=True)
         if fresh:
             return 1
